@@ -276,7 +276,25 @@ func c02Derive(c *Ctx) {
 		if phi, isPhi := iVal.(*ssa.Phi); isPhi {
 			iOK = true
 			srcs := map[ssa.CallInstruction]bool{}
-			for _, e := range phi.Edges {
+			// the merge may be one phi or a chain of phis (goto form / for-loop form): take the non-phi leaves
+			var leaves []ssa.Value
+			seen := map[*ssa.Phi]bool{}
+			var walk func(p *ssa.Phi)
+			walk = func(p *ssa.Phi) {
+				if seen[p] {
+					return
+				}
+				seen[p] = true
+				for _, e := range p.Edges {
+					if q, isQ := e.(*ssa.Phi); isQ {
+						walk(q)
+					} else {
+						leaves = append(leaves, e)
+					}
+				}
+			}
+			walk(phi)
+			for _, e := range leaves {
 				sum, isCall := e.(*ssa.Call)
 				if !isCall || ana.CalleeName(&sum.Call) != "(hash.Hash).Sum" {
 					iOK = false
